@@ -101,7 +101,8 @@ pub fn alone_child_main() -> i32 {
 }
 
 fn alone_fresh(scen: &Scenario, spec: &TaskSpec) -> Result<Vec<Out>, String> {
-    let bin = std::env::var("SIM_REL").unwrap_or_else(|_| std::env::current_exe().unwrap().display().to_string());
+    // the same build profile as the run it is compared with
+    let bin = std::env::current_exe().map(|p| p.display().to_string()).unwrap_or_else(|_| std::env::var("SIM_REL").unwrap_or_default());
     let mut child = Command::new(&bin)
         .arg("c15-alone")
         .stdin(Stdio::piped())
@@ -1131,18 +1132,20 @@ pub fn run(tier: &str) -> i32 {
     // debug assertions): a change that only misbehaves in one build profile
     {
         let n_dev: u64 = if quick { 120 } else { 3000 };
+        let n_dev_fresh: u64 = if quick { 60 } else { 600 };
         let tdev = format!("{tier}/dev");
-        let chunks = run_batch("C15", "inproc", n_dev, chunk, &tdev, true);
+        for (dbatch, dn) in [("inproc", n_dev), ("fresh", n_dev_fresh)] {
+        let chunks = run_batch("C15", dbatch, dn, chunk, &tdev, true);
         for (ci, ch) in chunks.iter().enumerate() {
             let chunk_first = ci as u64 * chunk;
             if let Some((i, how)) = &ch.died {
                 ev.violations.push(Violation {
                     property: "C15".into(),
                     oracle: "process_died".into(),
-                    key: format!("dev:process_died:history:inproc:{chunk_first}..={i}"),
+                    key: format!("dev:process_died:history:{dbatch}:{chunk_first}..={i}"),
                     detail: format!("[dev profile] the process running the evaluators ended with {how} at case {i}"),
                     seed: vs,
-                    replay: json!({"kind":"chunk","batch":"inproc","first":chunk_first,"upto":i,"tier":tdev,"profile":"dev","expected_oracle":"process_died"}),
+                    replay: json!({"kind":"chunk","batch":dbatch,"first":chunk_first,"upto":i,"tier":tdev,"profile":"dev","expected_oracle":"process_died"}),
                 });
             }
             for c in &ch.cases {
@@ -1150,12 +1153,13 @@ pub fn run(tier: &str) -> i32 {
                 ev.fault("profile_dev", 1);
                 logfold.add(c.log);
                 if c.violation.is_some() && ev.violations.len() < 5 {
-                    let mut v = settle_violation("C15", "inproc", &tdev, true, chunk_first, c, &minimise_json, &key_json);
+                    let mut v = settle_violation("C15", dbatch, &tdev, true, chunk_first, c, &minimise_json, &key_json);
                     v.detail = format!("[dev profile] {}", v.detail);
                     v.key = format!("dev:{}", v.key);
                     ev.violations.push(v);
                 }
             }
+        }
         }
     }
     ev.probe("distinct_schedule_traces", traces.len() as u64);
